@@ -279,6 +279,10 @@ def run_case(case):
                 i = rng.choice(cons_lines); t = lines[i].split()
                 # find which block the line belongs to and whether that block has edges
                 corr.append(("constraint-edge-missing", i, lines[i].rstrip() + " zz_absent_node"))
+                if len(t) >= 3 and t[0] == "#S":
+                    corr.append(("constraint-edge-missing", i, " ".join([t[0], "zz_absent_node"] + t[2:])))       # ... the FIRST node is the absent one
+                    if len(t) >= 4:
+                        corr.append(("constraint-edge-missing", i, " ".join(t[:2] + ["zz_absent_node"] + t[3:])))   # ... a middle node
             # the first header line of a block loses its '#': the text then is a line outside every block (first block) or a malformed
             # edge line of the previous block - unless it happens to look like an edge line (3 tokens), which is skipped
             firsts = [i for i, l in enumerate(lines) if l.strip().startswith("#") and not l.strip().startswith("#S")
